@@ -490,7 +490,7 @@ func runCase(c *wk.Ctx, i int) {
 				discarded.Store(id, true)
 			case "close":
 				// closing the DB discards the open transaction (readers go home first:
-				// Get racing Close with a tiny open-files cache is C09's known finding)
+				// Get racing Close with a tiny open-files cache was C09's finding F10, fixed since)
 				atomic.StoreInt32(&stop, 1)
 				st.ClearFaults()
 				rwg.Wait()
